@@ -143,6 +143,8 @@ inductive Ev : Streams → Streams → Prop
       Ev s (match s.qPop .pendingOpen with
             | (s', some id) => s'.incNumSendStreams id
             | (s', none) => s')
+  /-- the `NextAccept` link of a promised stream is also used by its parent's `pending_push_promises` -/
+  | acceptFlag {s : Streams} (k : Nat) (v : Bool) : Ev s (s.modStream k fun st => { st with isPendingAccept := v })
   /-- `send_push_promise`: a PUSH_PROMISE frame for a locally initiated (promised) id is queued -/
   | queuePP {s : Streams} (k pk pid : Nat) (fields : List Hpack.Field) : s.counts.isLocalInit pid = true →
       Ev s (s.modStream k fun st => { st with pendingSend := st.pendingSend ++ [.pushPromise pk pid fields] })
